@@ -73,6 +73,8 @@ impl PathBearing {
     }
 
     fn process_instruction(&mut self) -> Result<()> {
+        #[cfg(feature = "verif")]
+        crate::verif::scan_step("bearing", self.tokens.index, self.tokens.data.len());
         if self.command.is_none() || self.tokens.at_command()? {
             // "The command letter can be eliminated on subsequent commands if the same
             // command is used multiple times in a row (e.g., you can drop the second
@@ -135,6 +137,8 @@ impl PathBearing {
     }
 
     fn evaluate(&mut self) -> Result<&String> {
+        #[cfg(feature = "verif")]
+        crate::verif::scan_begin("bearing", self.tokens.data.len());
         self.tokens.skip_whitespace();
         while !self.tokens.at_end() {
             self.process_instruction()?;
